@@ -63,9 +63,9 @@ def main():
     try:
         mod = importlib.import_module("props." + pid.lower())
         return mod.run(ck)
-    except Exception:  # the harness itself broke: that is an alarm, not a pass
+    except BaseException:  # the harness itself broke (or lithium called sys.exit under it): an alarm, not a pass
         traceback.print_exc()
-        ck.mismatch("harness", "exception in harness", "", traceback.format_exc()[-400:])
+        ck.mismatch("harness", "exception in harness", "", traceback.format_exc()[-600:])
         return ck.finish(level="proof", rule="harness crashed")
 
 
